@@ -250,6 +250,73 @@ class TwoDirectories(object):
         finally:
             shutil.rmtree(root, ignore_errors=True)
 
+class OneFileTwoNames(object):
+    case_timeout = 30
+    name = 'one-file-reached-under-two-names'
+    describe = ('a REAL FileReader directory (fuzzy -MIB matching on, as by default): module A imports from FOO and from FOO-MIB (or '
+                'both names are requested) while only one of FOO.txt / FOO-MIB.txt exists: the file is fetched and parsed once per '
+                'call; the name that no module carries is missing (when imported) and the other compiled')
+
+    def blocks(self, tier):
+        return [{}]
+
+    def cases(self, block, tier):
+        for present in ('FOO', 'FOO-MIB'):
+            for how in ('imported-by-A', 'imported-by-A-other-order', 'requested', 'requested-other-order'):
+                yield {'present': present, 'how': how}
+
+    def run_case(self, case):
+        import os
+        import shutil
+        import tempfile
+        from mc import env
+        from pysmi.reader.localfile import FileReader
+        base = os.environ.get('VERIF_TMP') or ('/dev/shm' if os.path.isdir('/dev/shm') else None)
+        root = tempfile.mkdtemp(prefix='mcC08f', dir=base)
+        try:
+            for b in env.BASE_NAMES:
+                with open(os.path.join(root, b), 'w') as f:
+                    f.write(env.base_text(b))
+            present = case['present']
+            absent = 'FOO' if present == 'FOO-MIB' else 'FOO-MIB'
+            with open(os.path.join(root, present + '.txt'), 'w') as f:
+                f.write('%s DEFINITIONS ::= BEGIN\nIMPORTS enterprises FROM SNMPv2-SMI;\nfooRoot OBJECT IDENTIFIER ::= { enterprises 5 }\nEND\n' % present)
+            names = [present, absent] if 'other-order' not in case['how'] else [absent, present]
+            if case['how'].startswith('imported'):
+                with open(os.path.join(root, 'A.txt'), 'w') as f:
+                    f.write('A DEFINITIONS ::= BEGIN\nIMPORTS enterprises FROM SNMPv2-SMI x FROM %s y FROM %s;\n'
+                            'aRoot OBJECT IDENTIFIER ::= { enterprises 6 }\nEND\n' % tuple(names))
+                req = ['A']
+            else:
+                req = names
+            parsed = []
+            real = env.fresh_parser('smiV2')
+
+            class P(object):
+                def reset(self):
+                    real.reset()
+
+                def parse(self, data, **kw):
+                    parsed.append(data.split(None, 1)[0] if data.strip() else '')
+                    return real.parse(data, **kw)
+            w = env.CaptureWriter()
+            comp = env.MibCompiler(P(), env.make_codegen('json'), w)
+            comp.addSources(FileReader(root))
+            comp.addSearchers(env.StubSearcher(*env.BASE_NAMES))
+            res = comp.compile(*req, ignoreErrors=True)
+            sig = 'C08|one-file-two-names|%s-present|%s' % (present, case['how'])
+            vs = []
+            if parsed.count(present) != 1:
+                vs.append(('%s|file-parsed-%d-times' % (sig, parsed.count(present)), 'texts parsed: %r' % parsed))
+            if res.get(present) != 'compiled':
+                vs.append(('%s|module-of-the-file-%s' % (sig, res.get(present)), repr(dict((k, str(v)) for k, v in res.items()))))
+            if case['how'].startswith('imported') and str(res.get(absent)) not in ('missing', 'failed'):
+                vs.append(('%s|name-nobody-carries-is-%s' % (sig, res.get(absent)), repr(dict((k, str(v)) for k, v in res.items()))))
+            return repr(sorted((k, str(v)) for k, v in res.items())), vs, 1
+        finally:
+            shutil.rmtree(root, ignore_errors=True)
+
+
 class SeveralPerFile(C07.SeveralPerFile):
     """C07's worlds of multi-module files over two sources, judged for WHICH copy of a module is compiled."""
     prefix = 'C08'
@@ -287,4 +354,4 @@ class SeveralPerFile(C07.SeveralPerFile):
         return vs
 
 
-FAMILIES = [SeveralPerFile(), Graphs(), Suppliers(), Shapes(), TwoDirectories()]
+FAMILIES = [SeveralPerFile(), OneFileTwoNames(), Graphs(), Suppliers(), Shapes(), TwoDirectories()]
